@@ -186,7 +186,32 @@ func init() {
 		return []fmt.Stringer{nil, myStringer(1), myStringer(1), myStringer(2), time.Duration(1), time.Duration(1), time.Duration(2)}
 	})
 	addKeyType("struct{}", func() []struct{} { return []struct{}{{}, {}} })
+	// defined types over every basic kind (a fast path keyed on reflect.Kind must
+	// not assume the predeclared type)
+	addKeyType("named string", func() []namedStr { return []namedStr{"", "a", namedStr(strFrom("a")), "ab", namedStr(strFrom("a", "b"))} })
+	addKeyType("named int", func() []namedInt { return []namedInt{0, 1, -1, math.MaxInt64} })
+	addKeyType("named int32", func() []namedInt32 { return []namedInt32{0, 1, -1, math.MaxInt32} })
+	addKeyType("named uint8", func() []namedU8 { return []namedU8{0, 1, 255} })
+	addKeyType("named float64", func() []namedF64 { return []namedF64{0, namedF64(negZero), 1, -1} })
+	addKeyType("named bool", func() []namedBool { return []namedBool{true, false} })
+	addKeyType("named *int", func() []namedPtr { return []namedPtr{nil, &ptrTargets[0], &ptrTargets[1], &ptrTargets[0]} })
+	addKeyType("named [2]int", func() []namedArr { return []namedArr{{}, {1, 2}, {2, 1}, {1, 2}} })
+	addKeyType("named any", func() []namedAny {
+		return []namedAny{nil, 1, int64(1), "s", strFrom("s"), namedStr("s"), negZero, 0.0, pad{1, 2}, padWithGarbage(1, 2, 3)}
+	})
 }
+
+type (
+	namedStr   string
+	namedInt   int
+	namedInt32 int32
+	namedU8    uint8
+	namedF64   float64
+	namedBool  bool
+	namedPtr   *int
+	namedArr   [2]int
+	namedAny   interface{}
+)
 
 // containerK abstracts MapOf[K,int64] and CacheOf[K,int64] for the mirror.
 type containerK[K comparable] interface {
@@ -411,7 +436,7 @@ func genKeys(seed uint64, tier string) *Case {
 	}
 	sp.KeyName = keyCatalogue[sp.KeyType].name
 	switch keyCatalogue[sp.KeyType].name {
-	case "*int", "unsafe.Pointer", "chan int", "struct withIface", "any", "struct ptrBox", "[1]*int":
+	case "*int", "unsafe.Pointer", "chan int", "struct withIface", "any", "struct ptrBox", "[1]*int", "named *int":
 		// hashes of pointer-bearing keys depend on addresses: the bucket layout
 		// is not the same in another process
 		sp.NonReplayable = true
